@@ -409,6 +409,13 @@ def r3_skip_count(L, repo, hl):
     L.require("C15.R3", F, fn, "rewinds to the start of the file first", [["0"]], [[canon(a) for a in c.args] for c in pre])
     for c in pre:
         L.ob("C15.R3", F, fn, "the rewind precedes the loop", "before", c.lineno, loops and c.lineno < loops[0].lineno)
+    if pre and loops:
+        # ... on EVERY path: a shortcut that keeps the current position (a remembered index) is only as good as the
+        # invalidation of that memory by everything that moves the position
+        lp_node = cfg.node_of(loops[0])
+        dom = cfg.must_pass(cfg.entry, [cfg.node_of(c) for c in pre], lp_node)
+        L.ob("C15.R3", F, fn, "every path into the skip loop rewinds the file first (the skip count is relative to the start of the capture)",
+             "seek(0) on every path to the loop", "a path reaches the loop without rewinding" if not dom else "on every path", dom, pre[0].lineno)
     for c in inl:
         args = [canon(a) for a in c.args]
         prov = origin(sk, args[0]) if args and args[0].isidentifier() else args[:1]
